@@ -266,7 +266,9 @@ def make_source(coord):
         rt = _rt_of(ctx)
         loop = rt.loop
         loop.ev("source_start", rt.rid, coord, canon(args))
-        rt.source_args.append(dict(args) if isinstance(args, dict) else args)
+        rt.source_args.append(copy.deepcopy(args) if isinstance(args, dict) else args)
+        if isinstance(args, dict):
+            rt.arg_refs.append(args)
         for k, (payload, plan) in enumerate(rt.event_plans):
             await loop.point((rt.rid, "source", k))
             rt.plan = plan
